@@ -99,7 +99,7 @@ typedef struct {
     guardref guards[MAXGUARD]; int nguards;
     /* model state */
     int res_holder[MAXRES];                     /* believed holder, -1 none */
-    uint64_t buf_put[MAXBUF], buf_got[MAXBUF];  /* completed + in-flight partial, maintained from bufvars */
+    unsigned __int128 buf_put[MAXBUF], buf_got[MAXBUF];  /* completed + in-flight partial, maintained from bufvars; 128 bits: totals may pass 2^64 */
     qitem oqm[MAXOQ][MAXQ]; int oqn[MAXOQ];
     qitem pqm[MAXPQ][MAXQ]; int pqn[MAXPQ];
     uint64_t pq_handles[MAXPQ][256]; int pq_nh[MAXPQ];
